@@ -101,8 +101,10 @@ def Transition.initialIds (t : Transition) : List Int :=
 def Transition.finalIds (t : Transition) : List Int :=
   sortBy (· < ·) ((t.edges.filter (·.dest == none)).map (·.id))
 
+/-- `topology.intermediate_edge_ids` is a `frozenset` of small ints: iterated in ascending order, whatever the order
+of the `edges` mapping (matters only for ties of `natural_sorting`, "023" vs "23"). -/
 def Transition.intermediateIds (t : Transition) : List Int :=
-  (t.edges.filter (fun e => e.orig != none && e.dest != none)).map (·.id)
+  sortBy (· < ·) ((t.edges.filter (fun e => e.orig != none && e.dest != none)).map (·.id))
 
 /-- `get_outer_state_ids`. -/
 def Transition.outerIds (t : Transition) : List Int := t.initialIds ++ t.finalIds
